@@ -63,10 +63,14 @@ CHECKS = {
         text="Per seeded scripted connection the fault points are enumerated: EOF at every input byte offset, a read error at every read call, a one-shot write error and a one-shot zero-length write at every write call, each in a fresh run replaying the script's choice list. Checked: termination without panic or spinning, no handler for an incompletely received preamble, end-of-file seen by a handler only behind a delivered terminator (short reads surface as errors), no write after a failed write, log = well-formed prefix consistent with the handler log.",
         note="Trusted: executor step cap as the spin detector (a poll that never returns would hang the check instead). Handlers propagate I/O errors.",
         technique=TECH + ": fault-point enumeration over a replayed seeded script (EOF / read error / write error / zero write at every index)"),
-    "C14": dict(engine="D2", cat="exploration", ref="DESIGN.md 4/C14",
-        text="Connection side: Runner::shutdown requested as a scheduler event at a seeded step (before the first read, mid-preamble, during the handler, during close, between requests, idle); started requests complete with their EndRequest, no handler starts in a poll that begins after the request, idle connections stop without another transport read, the shutdown future is Ready only after the token is dropped and its task is woken for it.",
-        note="Trusted: executor strictness for the wake-up clauses. A management reply being written by an idle connection may be cut by shutdown (statement is silent).",
-        technique=TECH + ": deterministic executor with shutdown as a scheduled event"),
+    "C14": dict(engine="D2+D3", cat="exploration", ref="DESIGN.md 4/C14",
+        text="Connection side: Runner::shutdown requested as a scheduler event at a seeded step (before the first read, mid-preamble, during the handler, during close, between requests, idle); started requests complete with their EndRequest, no handler starts in a poll that begins after the request, idle connections stop without another transport read, the shutdown future is Ready only after the token is dropped and its task is woken for it. Wait group: real threads under a serialising scheduler (one baton, seeded choice of the next thread at every harness operation, Waker callback and verif-hooks point) explore the interleavings of token drops with polls of the shutdown future, including the last drop landing between the liveness check and the waker registration and between registration and the drop of the temporary reference; Ready never early, no lost wake-up.",
+        note="Trusted: executor strictness for the wake-up clauses; the thread scheduler is sequentially consistent and does not explore interleavings inside futures' AtomicWaker. A management reply being written by an idle connection may be cut by shutdown (statement is silent).",
+        technique=TECH + ": deterministic executor with shutdown as a scheduled event + serialising thread scheduler (baton) over real threads"),
+    "C13": dict(engine="D2", cat="exploration", ref="DESIGN.md 4/C13",
+        text="Seeded histories over a runner (limit 1..4) and its clones: get_token futures created, polled with their own wakers, cancelled; tokens dropped unused, run to completion on simulated connections (client closes, one request, handler panic unwinding through Token::run); after every operation the live-token count is compared with the limit and, whenever a slot is free with requests queued, at least one queued request must have been woken since it last returned Pending; first-poll and woken-poll readiness are checked. The generator is biased towards two queued requests with two releases between polls (the coalescing shape).",
+        note="Trusted: nothing inside async-lock/event-listener is modelled; they run as real code, but interleavings inside them are not explored (single thread, operation granularity).",
+        technique=TECH + ": seeded operation histories with per-future wakers against a counter model"),
 }
 
 NOT_APPLICABLE = [
